@@ -226,7 +226,9 @@ pub fn oracle(c: &Corpus, _seed: u64, tier: &str) -> Vec<Report> {
             if tier != "thorough" && !seen_keys.insert(key) { continue; }
             let pos = toks.get(j).and_then(|x| li.offset(x.location.line, x.location.column)).unwrap_or(chars.len());
             let mut t2: String = chars[..pos].iter().collect();
-            t2.push_str(", ");
+            // the inserted comma in rotating layouts (C07: the layout around it must not matter)
+            let layouts = [", ", " , ", "  ,\n  ", " /* c */ , /* c */ ", ",\t", "\n,"];
+            t2.push_str(layouts[(r2.evaluations % layouts.len() as u64) as usize]);
             t2.extend(chars[pos..].iter());
             r2.evaluations += 1;
             d2.insert((var.clone(), follower_kind.clone(), k));
